@@ -211,6 +211,9 @@ func (r *Run) Finish(verifDir string, known *KnownFile, meta Meta) int {
 		total++
 		if o.Status == Discharged {
 			disch++
+			if os.Getenv("DBLINT_LIST") != "" {
+				fmt.Printf("DISCHARGED %s|%s at %s: %s\n", o.Rule, o.Key, o.Pos, o.Reason)
+			}
 			continue
 		}
 		if f, ok := openKnown[o.ID()]; ok {
